@@ -254,6 +254,115 @@ def task_ref(chunk):
     return len(chunk), v, classes
 
 
+# ------------------------------------------------------------------ half 3: the OPEN the application is told about
+SESSION_CFGS = [{}, {'four_bytes_as': False}, {'four_bytes_as': False, 'route_refresh': False, 'cisco_route_refresh': False}]
+
+
+def session_cases(tier):
+    items = cap_items()
+    base = [i for i, it in enumerate(items) if not it[0].startswith('unknown')]
+    combos = [()] + [(i,) for i in base] + [tuple(base[:k]) for k in (3, 6, len(base))] + [tuple(base[::-1])]
+    if tier == 'thorough':
+        combos += list(itertools.combinations(base, 2))
+    return [(ci, c, pk, asn) for ci in range(len(SESSION_CFGS)) for c in combos for pk in ('one_each', 'all_in_one') for asn in (65002, 4200000000)]
+
+
+def task_session(chunk):
+    """a reference OPEN through dataReceived in OpenSent: what handler.open_received is handed must be what Open.parse decodes
+    from those octets and what the reference encoder put in - whatever the local configuration is"""
+    import copy
+    from .. import world as W
+    items = cap_items()
+    v = []
+    classes = set()
+    mark, prev = 0, None
+    for ci, combo, pk, asn in chunk:
+        _tag(v, mark, 'session', prev)
+        mark, prev = len(v), (ci, combo, pk, asn)
+        enc, want_caps, has_as4 = [], {}, False
+        for i in combo:
+            label, data, f = items[i]
+            if label == 'as4':
+                data = wire.cap_as4(asn)
+                has_as4 = True
+            enc.append(data)
+            f(want_caps)
+        if asn > 65535 and not has_as4:
+            enc.append(wire.cap_as4(asn))
+            want_caps['four_bytes_as'] = True
+        body = wire.open_body(asn if asn <= 65535 else 23456, 90, 0x0A000002, wire.opt_params(enc, pk))
+        cfg = dict(SESSION_CFGS[ci], remote_as=asn)
+        w = W.replay(cfg, [('TICK', 0), ('CONN_OK', 0)], {})
+        got = []
+        w.handler.open_received = lambda peer, ts, m: got.append(copy.deepcopy(m))
+        w.step(('RX', 0, wire.frame(wire.OPEN, body)))
+        labels = tuple(items[i][0] for i in combo)
+        cls = ('cfg%d' % ci, pk, 'as4' if asn > 65535 else 'as2', len(combo))
+        classes.add(cls + (len(got),))
+        if len(got) != 1:
+            # refused OPENs are C05's business; an accepted-but-unreported one is not
+            if w.reported_state() == 'OPENCONFIRM':
+                v.append(('C14|open-session|OPEN accepted but not reported to the application|cfg%d' % ci, {'caps': labels, 'cfg': cfg, 'hex': body.hex()}))
+            continue
+        want = {'version': 4, 'asn': asn, 'hold_time': 90, 'bgp_id': '10.0.0.2', 'capabilities': want_caps}
+        if norm(got[0]) != norm(want):
+            d = [k for k in want if norm(got[0].get(k)) != norm(want[k])]
+            if d == ['capabilities']:
+                gc, wc = norm(got[0]['capabilities']), norm(want['capabilities'])
+                d = ['capabilities.' + k for k in sorted(set(gc) | set(wc)) if gc.get(k) != wc.get(k)]
+            v.append(('C14|open-session|cfg%d|the OPEN handed to the application differs from the OPEN received: %s' % (ci, ','.join(d)),
+                      {'caps': labels, 'packaging': pk, 'cfg': cfg, 'hex': body.hex(), 'got': got[0], 'want': want}))
+    _tag(v, mark, 'session', prev)
+    return len(chunk), v, classes
+
+
+def optlen_cases():
+    """Optional Parameters Length = every value a classic RFC 4271 OPEN can carry (0, 2..255), filled with unknown capabilities"""
+    out = []
+    for total in [0] + list(range(2, 256)):
+        for pk in ('one_param', 'two_params'):
+            out.append((total, pk))
+    return out
+
+
+def task_optlen(chunk):
+    from yabgp.message.open import Open
+    v = []
+    classes = set()
+    for total, pk in chunk:
+        def param(n, code):       # one optional parameter of n octets (n >= 2): type 2, a capability with an (n-4)-octet value
+            if n < 4:
+                return bytes([2, n - 2]) + bytes([code] * (n - 2)) if n == 2 else None
+            return bytes([2, n - 2, code, n - 4]) + bytes((i * 3 + 1) & 255 for i in range(n - 4))
+        if total == 0:
+            params, want = b'', {}
+        elif pk == 'one_param' or total < 8:
+            if total == 3:
+                continue
+            params = param(total, 200)
+            want = {'200': repr(params[4:])} if total >= 4 else {}
+        else:
+            a = total // 2
+            b = total - a
+            if a < 4 or b < 4:
+                continue
+            params = param(a, 200) + param(b, 201)
+            want = {'200': repr(params[4:a]), '201': repr(params[a + 4:])}
+        if params is None or len(params) != total:
+            continue
+        body = struct.pack('!BHHIB', 4, 65002, 90, 0x0A000002, total) + params
+        st, got, steps = budget.run(300 + 60 * len(body), lambda: Open().parse(body))
+        classes.add(('optlen', total >= 255, total % 2, pk, st))
+        if st != 'ok':
+            v.append(('C14|open-ref|optional-parameters-length=%s|parse: %s' % (total if total >= 250 else 'n', 'overrun' if st == 'overrun' else 'exception:' + type(got).__name__),
+                      {'total': total, 'hex': body.hex(), 'error': None if st == 'overrun' else str(got)[:200], 'case': report.pack(('optlen', [(total, pk)]))}))
+            continue
+        if norm(got.get('capabilities')) != norm(want) or got.get('asn') != 65002:
+            v.append(('C14|open-ref|optional-parameters-length=%s|diff:capabilities' % (total if total >= 250 else 'n'),
+                      {'total': total, 'hex': body.hex(), 'got': got, 'want': want, 'case': report.pack(('optlen', [(total, pk)]))}))
+    return len(chunk), v, classes
+
+
 # ------------------------------------------------------------------ NOTIFICATION / ROUTE-REFRESH / KEEPALIVE
 def task_small(args):
     from yabgp.message.notification import Notification
@@ -312,7 +421,7 @@ def task_small(args):
 
 
 def _dispatch(t):
-    return {'rt': task_roundtrip, 'ref': task_ref, 'small': task_small}[t[0]](t[1])
+    return {'rt': task_roundtrip, 'ref': task_ref, 'small': task_small, 'session': task_session, 'optlen': task_optlen}[t[0]](t[1])
 
 
 def run(tier, seed):
@@ -325,6 +434,12 @@ def run(tier, seed):
         tasks.append(('rt', rt[i:i + 500]))
     for i in range(0, len(rf), 500):
         tasks.append(('ref', rf[i:i + 500]))
+    sc = session_cases(tier)
+    for i in range(0, len(sc), 40):
+        tasks.append(('session', sc[i:i + 40]))
+    ol = optlen_cases()
+    for i in range(0, len(ol), 128):
+        tasks.append(('optlen', ol[i:i + 128]))
     for lo in range(0, 256, 16):
         tasks.append(('small', ('notif', lo, lo + 16)))
     tasks.append(('small', ('rr', 0, 0)))
@@ -346,12 +461,12 @@ def run(tier, seed):
                 'route_refresh, cisco_route_refresh, four_bytes_as, ext_nexthop, enhanced_route_refresh, add_path x 4) x AS values, the '
                 'AS x hold x identifier boundary product, every hold time; reference half: every subset of 12 capability kinds in '
                 'canonical order, all permutations of subsets of <= %d, rotations and reversal beyond, unknown codes {0,3,67,200} with '
-                'value lengths 0..3, x 3 packagings x 2- and 4-octet AS; NOTIFICATION: all 65536 (code, subcode) x data length '
+                'value lengths 0..3, x 3 packagings x 2- and 4-octet AS; every Optional Parameters Length 0, 2..255 filled with unknown capabilities; reference OPENs through dataReceived under 3 local configurations, the message handed to handler.open_received compared with the reference; NOTIFICATION: all 65536 (code, subcode) x data length '
                 '{0,1,2,20}, every code x subcode {0,1,255} also with 4074 and 4075 data octets (message of 4096); ROUTE-REFRESH: 16 AFI/SAFI x reserved x both types; KEEPALIVE. distinct = (shape class, capability kinds)'
                 % (4 if tier == 'thorough' else 3),
         'samples': [{'half': 'round-trip', 'asn': c[0], 'hold': c[1], 'bgp_id': c[2], 'caps': c[3]} for c in report.pick(rt, seed, 2)]
         + [{'half': 'reference', 'caps': [cap_items()[i][0] for i in c[0]], 'packaging': c[1], 'asn': c[2]} for c in report.pick(rf, seed, 2)],
-        'roundtrip_cases': len(rt), 'reference_cases': len(rf), 'exhaustive': True, 'violation_keys': summary,
+        'roundtrip_cases': len(rt), 'reference_cases': len(rf), 'session_cases': len(sc), 'optional_parameter_length_cases': len(ol), 'exhaustive': True, 'violation_keys': summary,
     }
     report.write_evidence(PROP, tier, seed, 'exploration', cov,
                           ['reference OPEN encoder/decoder in vf/ref/wire.py (RFC 4271, 5492, 2858, 2918, 4724, 6793, 7911, 7313, 8950, 9494)',
